@@ -19,7 +19,6 @@ import (
 	"k8s.io/utils/ptr"
 	"sigs.k8s.io/controller-runtime/pkg/reconcile"
 
-
 	pkgv1 "github.com/crossplane/crossplane/apis/pkg/v1"
 	"github.com/crossplane/crossplane/internal/controller/pkg/manager"
 	"github.com/crossplane/crossplane/internal/xpkg"
@@ -63,11 +62,11 @@ type world struct {
 	pkgs   []string
 	tags   []string
 	// digest (hex) -> revision name, learned from completed reconciles, per package
-	nameOf map[string]string
-	starts map[types.NamespacedName]int
-	nDigest int
-	deletes []gcDelete
-	revDigest map[string]string
+	nameOf     map[string]string
+	starts     map[types.NamespacedName]int
+	nDigest    int
+	deletes    []gcDelete
+	revDigest  map[string]string
 	tagHistory map[string][]string
 }
 
@@ -534,4 +533,3 @@ func conditionStatus(obj map[string]any, typ string) string {
 	}
 	return ""
 }
-
